@@ -444,7 +444,7 @@ fn op_strategy() -> impl Strategy<Value = Op> {
     ]
 }
 
-fn case_strategy(max_ops: usize) -> impl Strategy<Value = Case> {
+pub fn case_strategy(max_ops: usize) -> impl Strategy<Value = Case> {
     (
         0u8..4,
         0u8..12,
